@@ -68,6 +68,10 @@ func (e *env) exec(o opSpec) (failed bool, err error) {
 		err = e.doRestart(o)
 	case "sleep":
 		e.doSleep()
+	case "lag":
+		err = e.doLag(o)
+	case "sync":
+		err = e.doSync()
 	case "redist":
 		failed = e.doRedist(o)
 	case "split":
@@ -274,8 +278,54 @@ func randomOps(r *rng.R, short, ties bool, thresh int) []opSpec {
 			ops = append(ops, opSpec{Kind: "restart", NewCM: r.Bool()})
 		case x < 96 && short:
 			ops = append(ops, opSpec{Kind: "sleep"})
+		case x >= 96 && x < 99 && !short:
+			ops = append(ops, opSpec{Kind: "lag", Blocks: []int{1, 2, 5, 12}[r.Intn(4)], ToWallet: r.Bool()})
+		case x >= 99:
+			ops = append(ops, opSpec{Kind: "sync"})
 		}
 	}
+	return ops
+}
+
+// lagOps: the wallet store is left k blocks behind the manager (k in 1, 5, 40;
+// the blocks confirm wallet transactions and pay the wallet, so the accumulator
+// changes around the wallet's elements); every kind of funding call is made in
+// that window, signed and submitted with the basis it returned.
+func lagOps(r *rng.R, k int) []opSpec {
+	var ops []opSpec
+	if r.Chance(2, 3) {
+		ops = append(ops, opSpec{Kind: "fund", V2: true, Amount: "p1-1"}, opSpec{Kind: "broadcast", Ref: -1, ViaWallet: r.Bool()})
+	}
+	if r.Chance(1, 3) {
+		ops = append(ops, opSpec{Kind: "fund", V2: false, Amount: "p1-1"}, opSpec{Kind: "broadcast", Ref: -1})
+	}
+	if r.Chance(1, 3) {
+		ops = append(ops, opSpec{Kind: "fund", V2: true, Amount: "p1"}) // held across the window, submitted inside it
+	}
+	ops = append(ops, opSpec{Kind: "lag", Blocks: k, ToWallet: r.Bool()})
+	if len(ops) > 1 && ops[len(ops)-2].Kind == "fund" {
+		ops = append(ops, opSpec{Kind: "broadcast", Ref: -1})
+	}
+	ops = append(ops,
+		opSpec{Kind: "fund", V2: true, Amount: fmt.Sprintf("p%d", 1+r.Intn(2))}, opSpec{Kind: "broadcast", Ref: -1, ViaWallet: r.Bool()},
+		opSpec{Kind: "fund", V2: false, Amount: "p1+1"}, opSpec{Kind: "broadcast", Ref: -1},
+		opSpec{Kind: "fund", V2: r.Bool(), Amount: "bal", ThenRelease: true},
+		opSpec{Kind: "fund", V2: true, Amount: "bal+1"})
+	if r.Bool() {
+		ops = append(ops, opSpec{Kind: "redist", Outputs: 1 + r.Intn(3), Amount: fmt.Sprint(1+r.Intn(20)) + unit, FeePerB: "0"}, opSpec{Kind: "broadcast", Ref: -1})
+	}
+	if r.Bool() {
+		n := 2 + r.Intn(2)
+		ops = append(ops, opSpec{Kind: "split", N: n, Min: fmt.Sprintf("d%d", n+3+r.Intn(6))})
+	}
+	if r.Chance(1, 3) {
+		ops = append(ops, opSpec{Kind: "lag", Blocks: 1 + r.Intn(3), ToWallet: r.Bool()}, opSpec{Kind: "fund", V2: true, Amount: "p1"}, opSpec{Kind: "broadcast", Ref: -1})
+	}
+	ops = append(ops, opSpec{Kind: "sync"},
+		opSpec{Kind: "fund", V2: true, Amount: "bal", ThenRelease: true},
+		opSpec{Kind: "fund", V2: false, Amount: "bal+1"},
+		opSpec{Kind: "mine"},
+		opSpec{Kind: "fund", V2: true, Amount: "p1"}, opSpec{Kind: "broadcast", Ref: -1})
 	return ops
 }
 
@@ -300,6 +350,12 @@ func c07Corpus() []caseSpec {
 		// a failed request must not reserve; release and expiry free the inputs
 		{Name: "corpus-failure-release-expiry", Cfg: cfgSpec{Thresh: 30, MaxIn: 30, MaxDefrag: 10, Short: true}, Setup: setupSpec{Values: v(8, 6, 2), Immature: 1, Seed: 14},
 			Ops: []opSpec{{Kind: "fund", V2: true, Amount: "bal+1"}, {Kind: "fund", V2: false, Amount: "p1"}, {Kind: "fund", V2: true, Amount: "bal+1"}, {Kind: "release", Ref: -1}, {Kind: "fund", V2: true, Amount: "p2"}, {Kind: "sleep"}, {Kind: "fund", V2: false, Amount: "bal", ThenRelease: true}}, Probe: true},
+		// the wallet store is behind the manager: views agree (an output matures in the window), the basis is the store's tip
+		{Name: "corpus-store-behind-manager", Cfg: cfgSpec{Thresh: 30, MaxIn: 30, MaxDefrag: 10}, Setup: setupSpec{Values: v(70, 30, 9), Immature: 2, Seed: 16},
+			Ops: []opSpec{{Kind: "fund", V2: true, Amount: "p1-1"}, {Kind: "broadcast", Ref: -1, ViaWallet: true}, {Kind: "lag", Blocks: 40, ToWallet: true},
+				{Kind: "fund", V2: true, Amount: "p1"}, {Kind: "broadcast", Ref: -1}, {Kind: "fund", V2: false, Amount: "p1"}, {Kind: "broadcast", Ref: -1},
+				{Kind: "redist", Outputs: 2, Amount: "2" + unit, FeePerB: "0"}, {Kind: "broadcast", Ref: -1}, {Kind: "fund", V2: true, Amount: "bal+1"}, {Kind: "sync"},
+				{Kind: "fund", V2: true, Amount: "bal", ThenRelease: true}}, Probe: true},
 		// unconfirmed outputs, redistribute, split
 		{Name: "corpus-unconfirmed-redistribute-split", Cfg: cfgSpec{Thresh: 5, MaxIn: 30, MaxDefrag: 10}, Setup: setupSpec{Values: v(300, 90, 40, 15), Seed: 15},
 			Ops: []opSpec{{Kind: "fund", V2: true, Amount: "p1-1"}, {Kind: "broadcast", Ref: -1}, {Kind: "fund", V2: true, Amount: "bal+1", Unc: true}, {Kind: "fund", V2: true, Amount: "p1", Unc: true, ThenRelease: true},
@@ -363,7 +419,7 @@ func shrinkCase(spec caseSpec, kind string) (caseSpec, failure) {
 
 func runC07(c *hx.Ctx) {
 	res := c.Res
-	res.Rule = "a case = options (from the 4x4x4x2 grid of DefragThreshold, MaxInputsForDefrag, MaxDefragUTXOs, ReservationDuration) + a mined wallet state (0-8 mature outputs with distinct or tied values, 0-2 immature) + an operation sequence over FundTransaction/FundV2Transaction (amount grid: 0, 1, prefix sums +-1, balance, balance+1; useUnconfirmed; pre-existing inputs), ReleaseInputs, sign+submit to the pool (v1, v2, through the wallet), Redistribute, SplitUTXO, mined blocks, wallet/manager restarts, expiry; non-trivial := at least one call selected inputs and the sequence has at least three operations; distinct by the abstract case"
+	res.Rule = "a case = options (from the 4x4x4x2 grid of DefragThreshold, MaxInputsForDefrag, MaxDefragUTXOs, ReservationDuration) + a mined wallet state (0-8 mature outputs with distinct or tied values, 0-2 immature) + an operation sequence over FundTransaction/FundV2Transaction (amount grid: 0, 1, prefix sums +-1, balance, balance+1; useUnconfirmed; pre-existing inputs), ReleaseInputs, sign+submit to the pool (v1, v2, through the wallet), Redistribute, SplitUTXO, mined blocks, blocks that reach the manager but not yet the wallet store (1, 5, 40 blocks behind) with funding, signing and submitting inside that window, wallet/manager restarts, expiry; non-trivial := at least one call selected inputs and the sequence has at least three operations; distinct by the abstract case"
 	if os.Getenv("C07_SOAK_ONLY") != "" {
 		soak(c)
 		return
@@ -397,7 +453,7 @@ func runC07(c *hx.Ctx) {
 
 	var specs []caseSpec
 	specs = append(specs, c07Corpus()...)
-	nGrid, nRand, nTies := c.Scale(128, 1280), c.Scale(150, 3000), c.Scale(60, 800)
+	nGrid, nRand, nTies := c.Scale(128, 1280), c.Scale(130, 3000), c.Scale(45, 800)
 	for i := 0; i < nGrid; i++ {
 		r := c.R.Fork()
 		s := caseSpec{Name: fmt.Sprintf("grid-%d", i), Cfg: gridCfg(i + int(c.Seed)), Setup: genSetup(r, false, 8), Probe: r.Chance(1, 3)}
@@ -422,6 +478,19 @@ func runC07(c *hx.Ctx) {
 		} else {
 			s.Ops = randomOps(r, false, true, s.Cfg.Thresh)
 		}
+		specs = append(specs, s)
+	}
+
+	nLag := c.Scale(36, 360)
+	for i := 0; i < nLag; i++ {
+		r := c.R.Fork()
+		s := caseSpec{Name: fmt.Sprintf("lag-%d", i), Cfg: gridCfg(r.Intn(64)), Setup: genSetup(r, false, 8), Probe: r.Bool()}
+		s.Cfg.Short = false
+		if len(s.Setup.Values) < 4 {
+			s.Setup = genSetup(r, false, 8)
+		}
+		s.Setup.Immature = 1 + r.Intn(2)
+		s.Ops = lagOps(r, []int{1, 5, 40}[i%3])
 		specs = append(specs, s)
 	}
 
@@ -492,7 +561,7 @@ func runC07(c *hx.Ctx) {
 	for i := 0; i < 2 && i < len(results); i++ {
 		res.Sample(map[string]any{"case": results[len(c07Corpus())+i].spec})
 	}
-	res.Explored = map[string]any{"option_grid": "4x4x4x2 (every combination at least once in the grid stream)", "grid_cases": nGrid, "random_cases": nRand, "tie_cases": nTies}
+	res.Explored = map[string]any{"option_grid": "4x4x4x2 (every combination at least once in the grid stream)", "grid_cases": nGrid, "random_cases": nRand, "tie_cases": nTies, "store_behind_manager_cases": nLag, "store_behind_by_blocks": "1, 5, 40"}
 	soak(c)
 	// several small files: bin/check evaluates them in parallel, and Coq's
 	// elaboration of the literal case terms dominates the cost
